@@ -382,6 +382,7 @@ def c01(run):
         doc_tlc(run, "C01", "IndSmall", "NoFirst", "Bodies3x1", "BothLeaders", run.seed, 3)
     import docclean as _dc
     _dc.big_file_case(run)
+    _dc.twin_cases(run)
     run.assumptions += ["character classes: '#', '[', ']', ':', '.', space, tab, one letter class, one digit class, one "
                         "non-ASCII class (members drawn per occurrence from seeded pools)",
                         "bodies containing ']]' are outside the canonical form and skipped at pipeline level"]
